@@ -336,20 +336,22 @@ Proof.
 Qed.
 
 (** ... and hence of the reference map of C05. *)
-Theorem mem_atomic_spec bprog cfg :
-  mreachable (minit (mem_prog bprog) []) cfg ->
+Theorem mem_atomic_spec bprog m0 cfg :
+  mreachable (minit (mem_prog bprog) m0) cfg ->
+  nodupk m0 ->
   (forall i, forallb bop_okb (bprog i) = true) ->
   exists ops,
     Forall (in_prog bprog) ops /\
     mcalls (mdone cfg) = map mem_call ops /\
-    snd (run spec_step [] ops) = mresults (mdone cfg) /\
-    ((forall j, ~ mholds MW (mths cfg j)) -> abs (msh cfg) = fst (run spec_step [] ops)).
+    snd (run spec_step (abs m0) ops) = mresults (mdone cfg) /\
+    ((forall j, ~ mholds MW (mths cfg j)) ->
+     nodupk (msh cfg) /\ abs (msh cfg) = fst (run spec_step (abs m0) ops)).
 Proof.
-  intros Hr Hok. destruct (mem_atomic bprog [] cfg Hr) as (ops & H0 & H1 & H2 & H3).
+  intros Hr Hn Hok. destruct (mem_atomic bprog m0 cfg Hr) as (ops & H0 & H1 & H2 & H3).
   exists ops. split; [exact H0|]. split; [exact H1|].
   assert (forallb bop_okb ops = true) as Hops.
   { apply forallb_forall. intros o Ho. rewrite Forall_forall in H0.
     destruct (H0 o Ho) as [i Hi]. exact (proj1 (forallb_forall _ _) (Hok i) o Hi). }
-  destruct (mem_refines_spec ops Hops) as [H4 H5].
-  split; [congruence|]. intros Hq. rewrite (H3 Hq). exact H5.
+  destruct (run_refines mem_step mem_step_refines ops m0 Hn Hops) as (H6 & H4 & H5).
+  split; [congruence|]. intros Hq. rewrite (H3 Hq). split; [exact H6|exact H4].
 Qed.
